@@ -1,9 +1,9 @@
 package props
 
 import (
-	"time"
-	"strings"
 	"fmt"
+	"strings"
+	"time"
 
 	"github.com/IBM/fluent-forward-go/fluent/protocol"
 
